@@ -30,7 +30,12 @@ RULE = ("two streams. (1) configs: random ASA configs built from a structured de
         "a third with a block PERM that has the members of another block in another order, a seventh with an invalid reference or "
         "line) and a second config (the same, shifted by one line, the same headers with other members, unrelated): network_count "
         "of every group object, and the matrices of ==, !=, hash equality and hash_children equality of the first config's objects "
-        "against the objects of both. Anchored statements executed by the quick run: 148 of 152 (was 130); the 4 left are the "
+        "against the objects of both; pseq = 2..6 L4Object constructions carried out back to back inside ONE implementation call, each "
+        "answer compared with the model and judged on its own: every service name whose meaning depends on the protocol (rtsp: 554 vs "
+        "5004, all eight operator shapes; the 38 tcp-only and 22 udp-only names, read from the tables, three shapes each in quick and all "
+        "eight in thorough), the same spec string under tcp then udp and the reverse (376 fixed sequences in quick), plus 250 random sequences mixing them with numeric specs, other names and an "
+        "invalid spec in between (state carried from one construction to the next is observed whatever the worker scheduling). "
+        "Anchored statements executed by the quick run: 148 of 152 (was 130); the 4 left are the "
         "second `elif \"neq \" in` branch of L4Object.__init__, which the first test shadows (notes/coverage/C20.json).")
 LEVEL_TEXT = ("Theorems (Lean 4, all inputs): for every acyclic reference graph (any rank function) the model of network_strings "
               "returns exactly the flattening of the members in config order with aliases resolved and the flattening is unique; "
@@ -43,7 +48,8 @@ LEVEL_TEXT = ("Theorems (Lean 4, all inputs): for every acyclic reference graph 
               "reads a CiscoRange attribute that does not exist - recorded as it is, proposed repair notes/proposed-fixes/C20-2.patch), "
               "table_access_iff (the asa_* tables are served under syntax asa only), group_objects_eq (== by line number and header text, "
               "reflexive, symmetric, != its negation, the group objects of one config pairwise different), count_and_hash_children "
-              "(network_count = length of network_strings; equal hash_children iff equal network_strings, no hash collision assumed). "
+              "(network_count = length of network_strings; equal hash_children iff equal network_strings, no hash collision assumed), "
+              "pseq_history_free (in a sequence of constructions every answer is that of the construction alone). "
               "The model is tied to "
               "L4Object, ConfigList.asa_* and ASAObjGroupNetwork.network_strings by differential runs on every check.")
 LEVEL_NOTE = ("Trusted: Lean kernel; axioms propext/Classical.choice/Quot.sound only; the correspondence harness; hand-written "
@@ -388,6 +394,84 @@ def mk_groups(desc, lines, lines2, how, origin="gen"):
             "req": wire.req("asax", "groups", wire.enc_strs(lines), wire.enc_strs(lines2))}
 
 
+def mk_pseq(elems, origin="gen"):
+    """elems: port cases (dicts with proto / spec / want); all are built back to back inside ONE impl() call"""
+    e = wire.enc_str
+    fields = []
+    for c in elems:
+        fields += [e(c["proto"]), e(c["spec"])]
+    return {"kind": "pseq", "elems": [{k: c.get(k) for k in ("proto", "spec", "want")} for c in elems], "_origin": origin,
+            "req": wire.req("asax", "pseq", *fields)}
+
+
+def special_names():
+    """service names whose meaning depends on the protocol: a different number in the two tables, or in one table only"""
+    t = service_tables()
+    differ = sorted(n for n in t["tcp"] if n in t["udp"] and t["tcp"][n] != t["udp"][n])
+    tcp_only = sorted(n for n in t["tcp"] if n not in t["udp"])
+    udp_only = sorted(n for n in t["udp"] if n not in t["tcp"])
+    return differ, tcp_only, udp_only
+
+
+def pelem(proto, op, operands, spec=None):
+    """one construction with the property's verdict; a name the protocol's table does not have is invalid there"""
+    tbl = service_tables()[proto]
+    words = [str(o) for o in operands]
+    if spec is None:
+        spec = words[0] if op == "bare" else op + " " + " ".join(words)
+    if any(isinstance(o, str) and o not in tbl for o in operands):
+        want = "reject"
+    else:
+        want = denote(op, [tbl[o] if isinstance(o, str) else o for o in operands])
+    return mk_port(proto, spec, want=want, op=op, operands=words)
+
+
+def _spec_shapes(name):
+    return [("eq", [name]), ("bare", [name]), ("neq", [name]), ("lt", [name]), ("gt", [name]), ("range", [1, name]),
+            ("range", [name, 65535]), ("range", [name, name])]
+
+
+def pseq_cases(rng, tier):
+    differ, tcp_only, udp_only = special_names()
+    names = differ + tcp_only + udp_only
+    if tier != "search":
+        # every protocol-dependent name: the same spec string under tcp then udp, and the reverse; all eight operator
+        # shapes for a name with two meanings, three (rotating over the eight) for a name only one table has
+        for i, n in enumerate(names):
+            shapes = _spec_shapes(n)
+            if n not in differ and tier == "quick":
+                shapes = [shapes[(i + k) % len(shapes)] for k in (0, 3, 5)]
+            for op, operands in shapes:
+                for order in (("tcp", "udp"), ("udp", "tcp")):
+                    yield mk_pseq([pelem(order[0], op, operands), pelem(order[1], op, operands)])
+    count = {"quick": 250, "thorough": 4000, "search": 400}[tier]
+    both = sorted(set(service_tables()["tcp"]) & set(service_tables()["udp"]))
+    for _ in range(count):
+        n = rng.choice(differ * 4 + tcp_only + udp_only) if rng.random() < 0.8 else rng.choice(both)
+        op, operands = rng.choice(_spec_shapes(n))
+        first = rng.choice(["tcp", "udp"])
+        other = "udp" if first == "tcp" else "tcp"
+        seq = [pelem(first, op, operands)]
+        for _ in range(rng.choice([0, 1, 1, 2, 3])):
+            r = rng.random()
+            if r < 0.4:
+                k = rng.choice(BOUNDS + [22, 554, 5004, 514])
+                o2 = rng.choice(["eq", "bare", "neq", "lt", "gt"])
+                seq.append(pelem(rng.choice(["tcp", "udp"]), o2, [k]))
+            elif r < 0.6:
+                seq.append(mk_port(rng.choice(["tcp", "udp"]), rng.choice(MALFORMED_SPECS), want=None, malformed=True))
+            elif r < 0.8:
+                n2 = rng.choice(names)
+                o2, ops2 = rng.choice(_spec_shapes(n2))
+                seq.append(pelem(rng.choice(["tcp", "udp"]), o2, ops2))
+            else:
+                seq.append(pelem(first, op, operands))
+        seq.insert(rng.randrange(1, len(seq) + 1), pelem(other, op, operands))
+        if rng.random() < 0.4:
+            seq.append(pelem(first, op, operands))
+        yield mk_pseq(seq[:6])
+
+
 def _same_set_spellings(rng, proto):
     """two spellings that (mostly) denote the same port set"""
     tbl = service_tables()[proto]
@@ -462,9 +546,13 @@ def cases(rng, tier):
     yield from cfg_cases(rng, tier)
     import random
     yield from x_cases(random.Random(rng.getrandbits(64) ^ 0xC20), tier)
+    yield from pseq_cases(random.Random(rng.getrandbits(64) ^ 0x5E9), tier)
 
 
 def neighbours(case, rng):
+    if case["kind"] == "pseq":
+        yield from pseq_cases(rng, "search")
+        return
     if case["kind"] in ("l4pair", "l4guard", "tables", "groups"):
         yield from x_cases(rng, "search")
         return
@@ -483,6 +571,8 @@ def neighbours(case, rng):
 
 
 def nontrivial(case):
+    if case["kind"] == "pseq":
+        return len({e["proto"] for e in case["elems"]}) == 2
     if case["kind"] == "l4pair":
         return case["a"]["spec"].strip() != case["b"]["spec"].strip()
     if case["kind"] in ("l4guard", "tables"):
@@ -496,6 +586,8 @@ def nontrivial(case):
 
 
 def describe(case):
+    if case["kind"] == "pseq":
+        return {"constructions in one process": [[e["proto"], e["spec"]] for e in case["elems"]]}
     if case["kind"] == "l4pair":
         return {"a": {k: case["a"][k] for k in ("proto", "syntax", "spec")}, "b": {k: case["b"][k] for k in ("proto", "syntax", "spec")}}
     if case["kind"] == "l4guard":
@@ -522,6 +614,10 @@ def _depth(desc):
 
 
 def buckets(case, ans):
+    if case["kind"] == "pseq":
+        es = case["elems"]
+        same = any(a["spec"] == b["spec"] and a["proto"] != b["proto"] for i, a in enumerate(es) for b in es[i + 1:])
+        return ["pseq:len:%d" % len(es), "pseq:same-spec-under-both-protocols:%s" % same, "pseq:first:" + es[0]["proto"]]
     if case["kind"] == "l4pair":
         return ["l4pair:answer:" + ans.split("|")[0][:30] + ("/" + "".join(ans.split("|")[1:3]) if ans.startswith("ok") else "")]
     if case["kind"] == "l4guard":
@@ -566,6 +662,16 @@ def _impl_x(case):
     from ciscoconfparse2 import CiscoConfParse
     from ciscoconfparse2.models_asa import ASAObjGroupNetwork
     kind = case["kind"]
+    if kind == "pseq":
+        out = []
+        for e in case["elems"]:
+            try:
+                out.append("ok " + enc_runs(L4Object(protocol=e["proto"], port_spec=e["spec"], syntax="asa").port_list))
+            except RecursionError:
+                raise
+            except Exception as exc:
+                out.append(_err(exc))
+        return "|".join(out)
     if kind == "l4guard":
         try:
             if case["g"] == "eq-int":
@@ -638,7 +744,7 @@ def _impl_x(case):
 
 def impl(case):
     quiet_ccp()
-    if case["kind"] in ("l4pair", "l4guard", "tables", "groups"):
+    if case["kind"] in ("l4pair", "l4guard", "tables", "groups", "pseq"):
         return _impl_x(case)
     if case["kind"] == "port":
         from ciscoconfparse2.ccp_util import L4Object
@@ -681,7 +787,7 @@ def impl(case):
 
 
 def compare(case, impl_ans, model_ans):
-    if case["kind"] in ("l4pair", "l4guard", "tables", "groups"):
+    if case["kind"] in ("l4pair", "l4guard", "tables", "groups", "pseq"):
         return impl_ans == model_ans
     # the `.networks` rendering after '#' is checked by the oracle only (IPv4Obj is C11's subject)
     return impl_ans.split("#")[0] == model_ans
@@ -743,6 +849,14 @@ def ref_networks(strings):
 
 def _oracle_x(case, ans):
     kind = case["kind"]
+    if kind == "pseq":
+        # every construction is judged on its own: what was built before in the same process must not matter
+        fails = []
+        for i, (e, got) in enumerate(zip(case["elems"], ans.split("|"))):
+            for f in oracle({"kind": "port", "want": e["want"]}, got):
+                before = ", ".join(f"{x['proto']} {x['spec']!r}" for x in case["elems"][:i]) or "nothing"
+                fails.append(f"construction {i} ({e['proto']} {e['spec']!r}, after {before}): {f}")
+        return fails[:3]
     if kind == "l4guard":
         return [] if ans.startswith("err:") else [f"{case['g']}: a value of the wrong type was accepted"]
     if kind == "tables":
@@ -813,7 +927,7 @@ def _oracle_x(case, ans):
 
 
 def oracle(case, ans):
-    if case["kind"] in ("l4pair", "l4guard", "tables", "groups"):
+    if case["kind"] in ("l4pair", "l4guard", "tables", "groups", "pseq"):
         return _oracle_x(case, ans)
     if case["kind"] == "port":
         want = case.get("want")
